@@ -107,6 +107,28 @@ fn dir_has_var(ds: &[nitrogql_ast::directive::Directive]) -> bool {
     ds.iter().any(|d| (d.name.name == "skip" || d.name.name == "include")
         && matches!(d.arguments.iter().flat_map(|a| a.arguments.iter()).find(|(k, _)| k.name == "if"), Some((_, Value::Variable(_)))))
 }
+fn dir_vars_of<'a>(ds: &'a [nitrogql_ast::directive::Directive<'a>], out: &mut BTreeSet<&'a str>) {
+    for d in ds {
+        if d.name.name == "skip" || d.name.name == "include" {
+            if let Some((_, Value::Variable(v))) = d.arguments.iter().flat_map(|a| a.arguments.iter()).find(|(k, _)| k.name == "if") { out.insert(v.name); }
+        }
+    }
+}
+/// every boolean condition variable reachable from a selection set (through sub-selections, inline fragments, spreads)
+fn reach_vars<'a>(fs: &Frags<'a>, sels: &[&'a Selection<'a>], seen: &mut Vec<&'a str>, out: &mut BTreeSet<&'a str>) {
+    for s in sels {
+        match s {
+            Selection::Field(f) => { dir_vars_of(&f.directives, out); if let Some(ss) = &f.selection_set { reach_vars(fs, &ss.selections.iter().collect::<Vec<_>>(), seen, out); } }
+            Selection::FragmentSpread(sp) => {
+                dir_vars_of(&sp.directives, out);
+                if seen.contains(&sp.fragment_name.name) { continue; }
+                seen.push(sp.fragment_name.name);
+                if let Some(fd) = frag(fs, sp.fragment_name.name) { reach_vars(fs, &fd.selection_set.selections.iter().collect::<Vec<_>>(), seen, out); }
+            }
+            Selection::InlineFragment(i) => { dir_vars_of(&i.directives, out); reach_vars(fs, &i.selection_set.selections.iter().collect::<Vec<_>>(), seen, out); }
+        }
+    }
+}
 fn has_local_vars<'a>(fs: &Frags<'a>, sels: &[&'a Selection<'a>], depth: usize) -> bool {
     if depth > 64 { return false; }
     sels.iter().any(|s| match s {
@@ -307,6 +329,8 @@ struct Out {
     direct: Vec<J>,
     samples: Vec<J>,
     c02: bool,
+    budget: u64,
+    over_budget: Vec<(u64, usize, usize)>, // (estimate, boolean variables, bytes of the emitted type)
 }
 
 fn run_doc(out: &mut Out, si: usize, sdl: &str, tsdoc: &TypeSystemDocument, schema: &Schema<Cow<str>, Pos>, text: &str, stream: &str) {
@@ -409,6 +433,10 @@ fn run_doc(out: &mut Out, si: usize, sdl: &str, tsdoc: &TypeSystemDocument, sche
                 (perr(m), "None".to_string(), None)
             }
         };
+        let mut rv = BTreeSet::new(); reach_vars(&frags, &selrefs, &mut vec![], &mut rv);
+        let nvars = rv.len();
+        let tbytes = printed_ty.as_ref().map_or(0, |t| t.len());
+        let cost_est: u64 = (1u64 << nvars.min(30)) * (tbytes as u64 + 200);
         *out.stats.entry("definitions").or_insert(0) += 1;
         let plain = plain_list(&sels.selections);
         let frag_names: Vec<&str> = frags.iter().map(|f| f.name.name).collect();
@@ -417,12 +445,19 @@ fn run_doc(out: &mut Out, si: usize, sdl: &str, tsdoc: &TypeSystemDocument, sche
         if nodup(&frag_names) && merge_free_relaxed(&sv, &frags, &parent, &selrefs, 0, false) { *out.stats.entry("forecast_not_proved:merge_free_if_repeated_leaf_keys_were_allowed").or_insert(0) += 1; }
         if nodup(&frag_names) && merge_free_relaxed(&sv, &frags, &parent, &selrefs, 0, true) { *out.stats.entry("forecast_not_proved:merge_free_if_repeated_leaf_keys_and_aliased_typename_were_allowed").or_insert(0) += 1; }
         if mfree { *out.stats.entry("definitions_merge_free(theorem C01_emit_eq_ref_local_merge_free applies)").or_insert(0) += 1; }
-        out.terms.push((si, di, format!("CDef {{S}} {{D}} {} {} {} {} {} {} {}", idx, tree_term, ts_term, coq_bool(safe), coq_bool(af), coq_bool(plain), coq_bool(mfree))));
+        // cost cap: the spec-side predicates cost about 2^(boolean variables) x (size of the emitted type) per candidate
+        // value; definitions over the budget keep their correspondence case (CTie) but the property is not evaluated
+        let over = cost_est > out.budget;
+        if over { out.over_budget.push((cost_est, nvars, tbytes)); *out.stats.entry("definitions_over_cost_budget(property not evaluated; correspondence kept unless the document is left out for size)").or_insert(0) += 1; }
+        else if cost_est > out.budget / 10 { *out.stats.entry("definitions_within_a_factor_10_of_the_cost_budget(evaluated)").or_insert(0) += 1; }
+        out.terms.push((si, di, format!("{} {{S}} {{D}} {} {} {} {} {} {} {}", if over { "CTie" } else { "CDef" }, idx, tree_term, ts_term, coq_bool(safe), coq_bool(af), coq_bool(plain), coq_bool(mfree))));
+        let what: &str = if over { "definition over the cost budget (correspondence only)" } else { what };
         let dj = json!({"kind": what, "stream": stream, "definition": idx, "name": name, "schema": sdl, "doc": text, "emitted_type": printed_ty,
-                        "merge_safe": safe, "typename_alias_free": af, "plain": plain, "merge_free": mfree, "classes": classes});
+                        "merge_safe": safe, "typename_alias_free": af, "plain": plain, "merge_free": mfree, "classes": classes,
+                        "cost": {"vars": nvars, "type_bytes": tbytes, "estimate": cost_est}});
         if out.samples.len() < 3 && idx == 0 && out.descr.len() % 7 == 1 { out.samples.push(json!({"doc": text, "emitted_type": dj["emitted_type"]})); }
         out.descr.push(dj);
-        if out.c02 && !af {
+        if out.c02 && !af && !over {
             // twin case: C02 with the aliased-__typename deviation read into Ref_local; its classes do not
             // contain that class, so any other looseness of the same type is still reported
             let classes2: Vec<&str> = classes.iter().copied().filter(|c| *c != "aliased-__typename-typed-String-or-null").collect();
@@ -434,13 +469,16 @@ fn run_doc(out: &mut Out, si: usize, sdl: &str, tsdoc: &TypeSystemDocument, sche
     }
     // a few generated documents make the generator emit types of many megabytes (branches multiply with
     // variables and nesting); coqc cannot parse such terms, so these documents are counted and left out
-    const CAP: usize = 400_000;
+    const CAP: usize = 400_000;        // one case term
+    const DOC_CAP: usize = 600_000;    // all case terms of one document (coqc parses about 100 KB per second)
     let biggest = out.terms[terms_mark..].iter().map(|t| t.2.len()).max().unwrap_or(0);
+    let total: usize = out.terms[terms_mark..].iter().map(|t| t.2.len()).sum();
     let e = out.stats.entry("largest_case_term_bytes").or_insert(0); *e = (*e).max(biggest);
-    if biggest > CAP {
+    if biggest > CAP || total > DOC_CAP {
         out.terms.truncate(terms_mark);
         out.descr.truncate(descr_mark);
-        *out.stats.entry("documents_left_out_case_term_over_400KB").or_insert(0) += 1;
+        *out.stats.entry("documents_left_out_case_terms_over_400KB_each_or_600KB_together").or_insert(0) += 1;
+        let e = out.stats.entry("largest_left_out_document_case_terms_bytes").or_insert(0); *e = (*e).max(total);
     } else if out.terms.len() > terms_mark {
         // measured: distinct (schema, document) pairs that contributed at least one evaluated case
         out.distinct.insert(format!("{}\u{0}{}", sdl, text));
@@ -469,7 +507,7 @@ fn main() {
     let mut rng = Rng::new(args.seed);
     let thorough = args.tier == "thorough";
     let c02 = args.extra.windows(2).any(|w| w[0] == "--mode" && w[1] == "c02");
-    let mut out = Out { schemas: vec![], docs: vec![], terms: vec![], descr: vec![], distinct: HashSet::new(), stats: BTreeMap::new(), direct: vec![], samples: vec![], c02 };
+    let mut out = Out { schemas: vec![], docs: vec![], terms: vec![], descr: vec![], distinct: HashSet::new(), stats: BTreeMap::new(), direct: vec![], samples: vec![], c02, budget: 2_000_000, over_budget: vec![] };
 
     for (sdl, text) in corpus() {
         let tsdoc = load_schema(sdl).expect("corpus schema loads");
@@ -572,6 +610,7 @@ fn main() {
     fs::write(args.out.join("shards.json"), serde_json::to_string(&json!({"shards": k, "shard_size": shard_size, "n": out.terms.len()})).unwrap()).unwrap();
     fs::write(args.out.join("cases.json"), serde_json::to_string(&out.descr).unwrap()).unwrap();
     let docs = out.stats.get("documents").copied().unwrap_or(0).max(1);
+    let largest_over = { let mut v = out.over_budget.clone(); v.sort(); v.reverse(); v.truncate(8); v };
     write_meta(&args.out, &json!({
         "evaluations": out.descr.len(),
         "distinct_nontrivial": out.distinct.len(),
@@ -582,6 +621,9 @@ fn main() {
             "schemas": out.schemas.len(),
             "counts": out.stats,
             "fraction_documents_with_object_merge": out.stats.get("documents_with_object_merge").copied().unwrap_or(0) as f64 / docs as f64,
+            "cost_cap": {"estimate": "2^(boolean condition variables reachable from the definition) x (bytes of the emitted type + 200)",
+                         "budget": out.budget, "definitions_over_budget": out.over_budget.len(),
+                         "largest_over_budget(estimate, variables, type bytes)": largest_over},
             "fraction_documents_with_variable_condition": out.stats.get("documents_with_variable_condition").copied().unwrap_or(0) as f64 / docs as f64,
         },
         "direct_failures": out.direct,
